@@ -56,6 +56,10 @@ func (e *Enc) specCtx(fc *fctx, st *State, guard string) *specCtx {
 		sv := SV{T: e.asTermQuiet(v), Ty: p.Type()}
 		sc.oldVars[p.Name()] = sv
 		sc.vars[p.Name()] = sv
+		if rn := e.m.recordedParamName(fc.fn, i); rn != "" {
+			sc.oldVars[rn] = sv
+			sc.vars[rn] = sv
+		}
 	}
 	for _, fv := range fc.fn.FreeVars {
 		if v, ok := fc.freevars[fv]; ok {
@@ -92,6 +96,17 @@ func (e *Enc) specCtx(fc *fctx, st *State, guard string) *specCtx {
 			continue
 		}
 		e.bindLocal(sc, name, a, st, fc)
+	}
+	// names recorded for the pinned tree that no longer exist (renamed locals): bind them by position
+	for key, a := range e.renamedLocals(fc.fn) {
+		if _, ok := st.seen[a]; !ok {
+			continue
+		}
+		e.bindLocal(sc, key, a, st, fc)
+		base := key[:strings.Index(key, "#")]
+		if _, ok := sc.vars[base]; !ok {
+			e.bindLocal(sc, base, a, st, fc)
+		}
 	}
 	return sc
 }
